@@ -110,16 +110,21 @@ class NoValue(Exception):
     pass
 
 
-def teval(t, leaf=None):
+def teval(t, leaf=None, sv=None):
     """Python value of a term built from constants, arithmetic, comparisons, gates, tuples and len(); `leaf(term)` gives
-    the value of anything else (or raises NoValue).  Finite-abstraction evaluation over terms."""
+    the value of anything else (or raises NoValue); with `sv` (an SVal) named module / class constants evaluate to their
+    value.  Finite-abstraction evaluation over terms."""
     if leaf is not None:
         try:
             return leaf(t)
         except NoValue:
             pass
     k = t[0]
-    ev = lambda x: teval(x, leaf)
+    if k == 'global' and sv is not None:
+        v = sv.value_of(t)
+        if isinstance(v, (int, str, bytes, tuple)) or v is None:
+            return v
+    ev = lambda x: teval(x, leaf, sv)
     if k == 'const':
         return t[2]
     if k == 'add':
